@@ -1,0 +1,125 @@
+//go:build verif
+
+package store
+
+import (
+	"sync"
+	"sync/atomic"
+	"time"
+
+	"github.com/canopy-network/canopy/lib"
+)
+
+// Verification seam for property C08 (state root is a pure function of the state).
+// Compiled only with `-tags verif`; nothing here is reachable from a production build.
+
+// VerifC08Op is one pending state operation as Store.Root() hands it to the SMT.
+type VerifC08Op struct {
+	Key    []byte
+	Value  []byte
+	Delete bool
+}
+
+// VerifC08Commit feeds a batch of state operations to the tree through the same entry point
+// Store.Root() uses (CommitParallel, which falls back to Commit below the threshold or when the
+// backing store is not a *Txn). It exists only because valueOp is unexported.
+func VerifC08Commit(s *SMT, ops []VerifC08Op) lib.ErrorI {
+	m := make(map[uint64]valueOp, len(ops))
+	for _, o := range ops {
+		v := valueOp{key: o.Key, value: o.Value, op: opSet}
+		if o.Delete {
+			v = valueOp{key: o.Key, op: opDelete}
+		}
+		m[lib.MemHash(o.Key)] = v
+	}
+	return s.CommitParallel(m)
+}
+
+// ---- completion order of the parallel subtree workers ------------------------------------
+
+type verifC08Schedule struct {
+	mu       sync.Mutex
+	cond     *sync.Cond
+	order    []int // subtree indices in the order in which they must report
+	next     int   // position in order that may report now
+	reported []int // subtree indices in the order in which they did report
+	stray    []int // workers that were not part of the schedule (ran unscheduled)
+	dead     bool
+}
+
+var verifC08Sched atomic.Pointer[verifC08Schedule]
+
+// VerifC08Parks counts how often a subtree worker passed the hook (scheduled or not); a harness
+// uses it to prove that the call site in CommitParallel is compiled in.
+var VerifC08Parks atomic.Int64
+
+// VerifC08SetOrder installs the completion order for the NEXT CommitParallel call(s): worker
+// order[i] is held back just before it reports its result until workers order[0..i-1] have
+// finished reporting. nil removes the schedule.
+func VerifC08SetOrder(order []int) {
+	if order == nil {
+		verifC08Sched.Store(nil)
+		return
+	}
+	sc := &verifC08Schedule{order: append([]int{}, order...)}
+	sc.cond = sync.NewCond(&sc.mu)
+	verifC08Sched.Store(sc)
+}
+
+// VerifC08Observed returns the order in which workers reported under the installed schedule and
+// the workers that were not scheduled.
+func VerifC08Observed() (reported, stray []int) {
+	sc := verifC08Sched.Load()
+	if sc == nil {
+		return nil, nil
+	}
+	sc.mu.Lock()
+	defer sc.mu.Unlock()
+	return append([]int{}, sc.reported...), append([]int{}, sc.stray...)
+}
+
+// verifC08Park is called by a subtree worker immediately before it sends its result; the
+// returned function runs right after the send (it is deferred at the call site).
+func verifC08Park(idx int) func() {
+	VerifC08Parks.Add(1)
+	sc := verifC08Sched.Load()
+	if sc == nil {
+		return func() {}
+	}
+	sc.mu.Lock()
+	pos := -1
+	for i, o := range sc.order {
+		if o == idx {
+			pos = i
+		}
+	}
+	if pos < 0 {
+		sc.stray = append(sc.stray, idx)
+		sc.mu.Unlock()
+		return func() {}
+	}
+	// a schedule naming a worker that never arrives would hang the commit; turn that harness
+	// mistake into a crash instead (this is a liveness guard, not an oracle)
+	guard := time.AfterFunc(120*time.Second, func() {
+		sc.mu.Lock()
+		sc.dead = true
+		sc.cond.Broadcast()
+		sc.mu.Unlock()
+	})
+	for sc.next != pos && !sc.dead {
+		sc.cond.Wait()
+	}
+	guard.Stop()
+	if sc.dead {
+		sc.mu.Unlock()
+		panic("verif C08: schedule names a subtree worker that never reported")
+	}
+	sc.mu.Unlock()
+	return func() {
+		sc.mu.Lock()
+		sc.reported = append(sc.reported, idx)
+		sc.next++
+		sc.cond.Broadcast()
+		sc.mu.Unlock()
+	}
+}
